@@ -33,20 +33,23 @@ theorem insert_bucket_wp (key : Bytes) (o : WriteOpts) (b0 : Bytes) {fs : FS}
     (hb : BucketIs fs (bucketPath cfg cache key) b0) :
     wpD env (Growing cfg cache key o b0)
       (fun r fs' => ∀ s, r = Except.ok s → ∃ tm, (∀ t, o.time = some t → tm = t) ∧
-        fs'.get (bucketPath cfg cache key) = some (.file (b0 ++ (codec cfg).frame (mkRec key o tm))))
+        fs'.get (bucketPath cfg cache key) = some (.file (b0 ++ (codec cfg).frame (mkRec key o tm))) ∧
+        ((∀ t, o.time = some t → t ≤ timeMax) → tm ≤ timeMax))
       (insert cfg cache key o) fs := by
   have G0 : ∀ fsx, BucketIs fsx (bucketPath cfg cache key) b0 → Growing cfg cache key o b0 fsx :=
     fun fsx h => ⟨0, 0, by simpa using h⟩
   -- the tail: open for append, write the frame
-  have tail : ∀ fsx tm, (∀ t, o.time = some t → tm = t) → BucketIs fsx (bucketPath cfg cache key) b0 →
+  have tail : ∀ fsx tm, (∀ t, o.time = some t → tm = t) →
+      ((∀ t, o.time = some t → t ≤ timeMax) → tm ≤ timeMax) → BucketIs fsx (bucketPath cfg cache key) b0 →
       wpD env (Growing cfg cache key o b0)
         (fun r fs' => ∀ s, r = Except.ok s → ∃ tm, (∀ t, o.time = some t → tm = t) ∧
-          fs'.get (bucketPath cfg cache key) = some (.file (b0 ++ (codec cfg).frame (mkRec key o tm))))
+          fs'.get (bucketPath cfg cache key) = some (.file (b0 ++ (codec cfg).frame (mkRec key o tm))) ∧
+          ((∀ t, o.time = some t → t ≤ timeMax) → tm ≤ timeMax))
         (Prog.bind (appendRec cfg (bucketPath cfg cache key) (mkRec key o tm)) (fun a =>
           match a with
           | Except.error e => .done (Except.error e)
           | Except.ok () => .done (Except.ok (o.sri.getD defaultSri)))) fsx := by
-    intro fsx tm htm hbx
+    intro fsx tm htm hbound hbx
     unfold appendRec
     simp only [bind_eq, pure_eq, call, bind_sys, bind_done]
     refine wpD_call (G0 _ hbx) ?_ ?_
@@ -84,7 +87,7 @@ theorem insert_bucket_wp (key : Bytes) (o : WriteOpts) (b0 : Bytes) {fs : FS}
           simp only [exec, hf1, bind_done]
           refine ⟨⟨tm, ((codec cfg).frame (mkRec key o tm)).length, Or.inl ?_⟩, ?_⟩
           · simp
-          · intro s _; exact ⟨tm, htm, by simp⟩
+          · intro s _; exact ⟨tm, htm, by simp, hbound⟩
   unfold insert getTime
   simp only [bind_eq, pure_eq, call, bind_sys, bind_done]
   have hnt : ¬ (Call.mkdirP (FS.parent (bucketPath cfg cache key))).touches fs (bucketPath cfg cache key) :=
@@ -98,7 +101,7 @@ theorem insert_bucket_wp (key : Bytes) (o : WriteOpts) (b0 : Bytes) {fs : FS}
   · split
     · rename_i t0 ht0
       simp only [bind_done]
-      exact tail fs1 _ (fun t ht => by rw [ht0] at ht; cases ht; rfl) hb1
+      exact tail fs1 _ (fun t ht => by rw [ht0] at ht; cases ht; rfl) (fun hle => hle _ ht0) hb1
     · simp only [bind_sys]
       refine wpD_call (G0 _ hb1) (fun t => by simpa [execTorn] using G0 _ hb1) ?_
       intro fs2 r2 hs2
@@ -106,7 +109,12 @@ theorem insert_bucket_wp (key : Bytes) (o : WriteOpts) (b0 : Bytes) {fs : FS}
         hb1.frame (step_frame env fs1 fs2 _ r2 hs2 _ (by simp [Call.touches]))
       rename_i hnone
       split
-      · simp only [bind_done]; exact tail fs2 _ (fun t ht => by rw [hnone] at ht; cases ht) hb2
-      · simp only [bind_done]; exact tail fs2 _ (fun t ht => by rw [hnone] at ht; cases ht) hb2
+      · rename_i tnow
+        have hle : tnow ≤ timeMax := by
+          cases hs2 with
+          | ok => exact now_answer (answer_exec env fs1 .now)
+        simp only [bind_done]; exact tail fs2 _ (fun t ht => by rw [hnone] at ht; cases ht) (fun _ => hle) hb2
+      · simp only [bind_done]
+        exact tail fs2 _ (fun t ht => by rw [hnone] at ht; cases ht) (fun _ => Nat.zero_le _) hb2
 
 end Cacache
